@@ -2,6 +2,7 @@ import Swat4.Drv.Common
 import Swat4.Drv.Store
 import Swat4.Model.Heartbeat
 import Swat4.Model.Heartbeat6
+import Swat4.Model.UdpServer
 import Swat4.Drv.UCRun
 /-!
 # Driver helpers shared by the reporter properties C04, C05, C06
@@ -172,9 +173,14 @@ def records (args out : List String) : Option (List StepRec) :=
     | some ops =>
       -- the UDP server reads a datagram into a buffer of `BufferSize` bytes (2048: the component's default, which the
       -- harness configures): what does not fit is cut off before the dispatcher sees it
-      let ops := ops.map fun o => match o with | .dg ip port payload => Op.dg ip port (payload.take 2048) | o => o
+      -- (`UdpServer.deliver`); an empty datagram is not handed to the dispatcher at all: no answer, no effect, and the
+      -- server keeps reading (the model runs the dispatcher on it, which changes nothing, and the outcome is silence)
+      let ops := ops.map fun o => match o with
+        | .dg ip port payload => Op.dg ip port ((UdpServer.deliver UdpServer.defaultBufferSize payload).getD [])
+        | o => o
       (runOps ops out {} epochNs "-" "-" none).map fun recs => recs.map fun r =>
-        match r.outcome with
+        if r.dg.payload.isEmpty then { r with outcome := .silent }
+        else match r.outcome with
         | .err => if r.implOutcome == "none" then { r with implOutcome := "err" } else r
         | _ => r
     | none => none
